@@ -89,4 +89,23 @@ theorem propDoc_one (ns ms : List Nat) (ws : List (Option K)) (s s' : K) (D x : 
   rw [hD q hq, one_mul]
 
 end Propagator
+
+section Euler
+variable {K : Type} [Field K]
+
+/-- the centre of the volume is projected to the centre of the detector, for every rotation and spacing -/
+theorem euler_centre (R : M K) (vs ds halfIn halfOut : V K) (i : Nat) :
+    eulerProject R vs ds halfIn halfOut halfIn i = halfOut i := by
+  unfold eulerProject eulerT; ring
+
+/-- a displacement `d` of the point moves its projection by `M d`: with unit spacings and `R` the first two rows of the
+    identity, voxel `(a, b, c)` lands at `(a, b) − input_shape[:2]/2 + output_shape/2` -/
+theorem euler_identity (halfIn halfOut x : V K) (i : Nat) (hi : i < 2) :
+    eulerProject (fun a b => if a = b then (1 : K) else 0) (fun _ => 1) (fun _ => 1) halfIn halfOut x i
+      = x i - halfIn i + halfOut i := by
+  unfold eulerProject eulerT eulerM
+  interval_cases i <;> simp [sumTo] <;> ring
+
+end Euler
+
 end Scico.LinOps
